@@ -297,10 +297,15 @@ def scenario(job):
     init_id = base64.encodebytes(storage.lastTransaction()).rstrip()
     c0.close()
     db = ZODB.DB(storage, pool_size=4)        # a second DB on the same storage: fresh adapter, empty pool
+    lines = kw.pop('lines', False)
     if 'plan' in kw:
         Sc = sched.S = sched.Plan(kw['plan'], kw['order'])
     else:
         Sc = sched.S = sched.Sched(seed, **(kw or {}))
+    if lines:
+        # source-line granularity inside the read-file pool: its hand-over of file handles must be atomic for flush()
+        Sc.trace_lines(lambda code: code.co_name in ('get', 'flush', 'write_lock', 'empty', 'close')
+                       and code.co_filename.endswith('FileStorage.py'))
     errors = []
     # DB.__init__ used (and pooled) a connection of its own: it is part of the initial state - name it and put it
     # into the model's pool by a synthetic Open/Close pair
